@@ -6,6 +6,7 @@ package main
 import (
 	"encoding/json"
 	"fmt"
+	"sort"
 
 	"github.com/Tom-Johnston/mamba/dawg"
 )
@@ -15,6 +16,36 @@ type searchCase struct {
 	Pattern *string  `json:"pattern,omitempty"`
 	Anagram *string  `json:"anagram,omitempty"`
 	Blank   string   `json:"blank"`
+}
+
+type searchCaseJSON searchCase
+
+func (sc searchCase) MarshalJSON() ([]byte, error) {
+	x := searchCaseJSON(sc)
+	x.Words, x.Blank = lat1encAll(sc.Words), lat1enc(sc.Blank)
+	if sc.Pattern != nil {
+		x.Pattern = sp(lat1enc(*sc.Pattern))
+	}
+	if sc.Anagram != nil {
+		x.Anagram = sp(lat1enc(*sc.Anagram))
+	}
+	return json.Marshal(x)
+}
+
+func (sc *searchCase) UnmarshalJSON(b []byte) error {
+	var x searchCaseJSON
+	if err := json.Unmarshal(b, &x); err != nil {
+		return err
+	}
+	x.Words, x.Blank = lat1decAll(x.Words), lat1dec(x.Blank)
+	if x.Pattern != nil {
+		x.Pattern = sp(lat1dec(*x.Pattern))
+	}
+	if x.Anagram != nil {
+		x.Anagram = sp(lat1dec(*x.Anagram))
+	}
+	*sc = searchCase(x)
+	return nil
 }
 
 func patternMatches(w, pat string, blank byte) bool {
@@ -144,6 +175,17 @@ func evalSearch(sc searchCase, d *dawg.Dawg, before string) *Failure {
 
 func sp(s string) *string { return &s }
 
+func dedupSorted(ws []string) []string {
+	sort.Strings(ws)
+	out := ws[:0]
+	for i, w := range ws {
+		if i == 0 || w != ws[i-1] {
+			out = append(out, w)
+		}
+	}
+	return out
+}
+
 func runC13(c *Ctx) {
 	c.Level = "exploration"
 	c.Rule = "every subset of the words of length <=3 over {a,b} (32768 sets) x every pattern of length <=4 over {a,b,c,?} and every anagram letter sequence of length <=4 over the same symbols (blank '?'; a slice also with blank 'a'), and pattern+anagram pairs of length <=2 (<=3 thorough) on every subset of the 7 words of length <=2; each search run twice with the same searcher objects; expected = sorted word list filtered by the definition, ranks = positions; Dawg snapshot compared before/after; non-trivial = query with at least one match"
@@ -211,6 +253,48 @@ func runC13(c *Ctx) {
 			}
 		}
 	})
+	// wide nodes (ranks are accumulated over skipped links, so link-count dependent code paths matter)
+	var wideCases []searchCase
+	for _, b := range []int{0, 1, 2, 7, 8, 9, 10, 15, 16, 17, 31, 32, 33, 63, 64, 65, 127, 128, 129, 200, 256} {
+		if b > 70 && !c.Thorough() && b != 128 {
+			continue
+		}
+		for variant := 0; variant < 4; variant++ {
+			var ws []string
+			if variant&1 == 1 {
+				ws = append(ws, "")
+			}
+			for i := 0; i < b; i++ {
+				l := byte(i)
+				ws = append(ws, string([]byte{l}))
+				if variant >= 2 && (i%5 == 0 || i == b-1) {
+					for j := 0; j < b && j < 10; j++ {
+						ws = append(ws, string([]byte{l, byte(j * (b / 10 + 1) % b)}))
+					}
+				}
+			}
+			ws = dedupSorted(ws)
+			blank := "\xfe"
+			qs := []string{"", blank, blank + blank, blank + blank + blank}
+			for _, i := range []int{0, b / 2, b - 1} {
+				if i >= 0 && i < b {
+					qs = append(qs, string([]byte{byte(i)}), string([]byte{byte(i)})+blank, blank+string([]byte{byte(i)}), string([]byte{byte(i), byte(i)}))
+				}
+			}
+			for _, q := range qs {
+				wideCases = append(wideCases, searchCase{Words: ws, Pattern: sp(q), Blank: blank})
+				wideCases = append(wideCases, searchCase{Words: ws, Anagram: sp(q), Blank: blank})
+			}
+		}
+	}
+	c.parFor(int64(len(wideCases)), 4, func(lo, hi int64) {
+		for _, sc := range wideCases[lo:hi] {
+			sc := sc
+			c.Check(func() *Failure { return evalSearch(sc, nil, "") })
+			c.Nontrivial(1)
+		}
+	})
+	c.SetCount("wide_node_queries", int64(len(wideCases)))
 	c.SetCount("queries_full", int64(len(queries)))
 	c.SetCount("word_sets", total)
 	c.Sample("pattern", searchCase{Words: []string{"a", "ab", "abb", "bab"}, Pattern: sp("?b?"), Blank: "?"})
